@@ -417,6 +417,12 @@ func (a *FuncAn) check(b *ssa.BasicBlock, goals []Goal) (bool, string) {
 			if why, un := a.untrackedNear(b, g.L); un {
 				return false, untrackedPrefix + g.Text + "  [" + a.goalText(g.L) + "] is known only through " + why
 			}
+			// an unexported worker whose obligation relates several of its parameters to a loop variable (`data[off :
+			// off+size]` with off advancing by size, safe because the exported wrapper checked len(data)%size == 0): the
+			// relation among the parameters is established by the callers in a form a per-site linear goal cannot carry
+			if why := a.callerRelation(b, g.L); why != "" {
+				return false, untrackedPrefix + g.Text + "  [" + a.goalText(g.L) + "] " + why
+			}
 			// a value of the goal was examined by a module function whose nil error is established on this path (a
 			// validation helper: `if err := b.checkIndex(i); err != nil { return err }`): what that success implies is a
 			// fact about the helper's arguments and the state it reads, which no summary of this engine carried here
@@ -956,4 +962,111 @@ func (e *Engine) decisionComplete(f *ssa.Function) bool {
 		}
 	}
 	return true
+}
+
+// callerRelation: the function is an unexported (or internal-package) non-root with callers in scope, and the goal
+// mentions entry values of at least two different parameters together with a value that varies inside the function.
+func (a *FuncAn) callerRelation(b *ssa.BasicBlock, g Lin) string {
+	e, f := a.E, a.Fn
+	if e.Roots[f] || e.Scope == nil || !e.Scope[f] || len(e.callers[f]) == 0 {
+		return ""
+	}
+	if f.Object() != nil && f.Object().Exported() && !internalPkg(f) {
+		return ""
+	}
+	params := map[int]bool{}
+	varying := false
+	var walk func(at *Atom, d int)
+	walk = func(at *Atom, d int) {
+		if d > 4 {
+			return
+		}
+		if t, _, ok := a.entryTerm(at); ok {
+			idx := t.param
+			if idx >= 1000 {
+				idx -= 1000
+			}
+			params[idx] = true
+			return
+		}
+		if deps := a.atomDeps[at]; len(deps) > 0 {
+			for _, dp := range deps {
+				walk(dp, d+1)
+			}
+			return
+		}
+		if v := a.capAtomOf[at]; v != nil {
+			if p, ok := v.(*ssa.Parameter); ok {
+				for i, q := range f.Params {
+					if q == p {
+						params[i] = true
+					}
+				}
+				return
+			}
+		}
+		// a value read out of a parameter (an element of a slice parameter, a field behind a pointer parameter)
+		v := a.lenAtomOf[at]
+		if v == nil {
+			v = a.atomVal[at]
+		}
+		for d2 := 0; v != nil && d2 < 6; d2++ {
+			switch x := v.(type) {
+			case *ssa.UnOp:
+				v = x.X
+				continue
+			case *ssa.IndexAddr:
+				v = x.X
+				continue
+			case *ssa.Index:
+				v = x.X
+				continue
+			case *ssa.FieldAddr:
+				v = x.X
+				continue
+			case *ssa.Slice:
+				v = x.X
+				continue
+			case *ssa.Parameter:
+				for i, q := range f.Params {
+					if q == x {
+						params[i] = true
+					}
+				}
+			}
+			break
+		}
+		varying = true
+	}
+	inGoal := map[*Atom]bool{}
+	for _, t := range g.t {
+		inGoal[t.a] = true
+		walk(t.a, 0)
+	}
+	// the parameters that bound the goal's values in the facts in scope count too (`m < fragmentSize` for the index m
+	// into a row whose length the callers made equal to fragmentSize)
+	if s := a.in[b]; s != nil {
+		for _, f := range s.sortedFacts() {
+			shares := false
+			for _, t := range f.t {
+				if inGoal[t.a] {
+					shares = true
+				}
+			}
+			if !shares {
+				continue
+			}
+			wasVarying := varying
+			for _, t := range f.t {
+				if !inGoal[t.a] {
+					walk(t.a, 0)
+				}
+			}
+			varying = wasVarying
+		}
+	}
+	if len(params) >= 2 && varying {
+		return "relates several parameters of " + FuncShort(f) + " to a value that varies inside it: the relation among the parameters is what its callers establish, in a form hoisting cannot carry"
+	}
+	return ""
 }
